@@ -393,6 +393,33 @@ var kindName = []string{"list", "tuple", "set", "object", "map"}
 // quadratic in the nesting depth (reported as a finding) and 16 workers run at once.
 func deepDoc(r *core.Rand, maxLen int, thorough bool) deepCase {
 	leafJSON := []string{`"x"`, `1`, `true`, `null`, `[]`, `{}`, `"` + strings.Repeat("a", 200) + `"`}
+	if r.Chance(1, 12) {
+		// ---- JSON type descriptor, bare or as the type of a dynamic wrapper ----
+		kinds := []string{"list", "set", "map"}
+		k := kinds[r.Intn(3)]
+		d := []int{50, 300, 1000, 2500, 5000, 9990, 10001}[r.Intn(7)]
+		if !thorough && !r.Chance(1, 4) {
+			d = []int{20, 100, 400}[r.Intn(3)]
+		}
+		open, clos := `["`+k+`",`, `]`
+		if r.Chance(1, 4) {
+			open, clos = `["tuple",[`, `]]`
+		}
+		for d > 8 && (d*len(open+clos)+40 > maxLen || int64(d)*int64(d*len(open+clos)) > jsonDeepBudget(thorough)) {
+			d /= 2
+		}
+		doc := strings.Repeat(open, d) + `"string"` + strings.Repeat(clos, d)
+		dc := deepCase{format: "json", depth: d}
+		if r.Bool() {
+			dc.input = []byte(doc)
+			dc.desc = fmt.Sprintf("deep type descriptor %s x%d bare", k, d)
+			return dc
+		}
+		dc.input = []byte(`{"value":null,"type":` + doc + `}`)
+		dc.target = cty.DynamicPseudoType
+		dc.desc = fmt.Sprintf("deep type descriptor %s x%d in a wrapper", k, d)
+		return dc
+	}
 	if r.Bool() {
 		// ---- JSON ----
 		kind := r.Intn(5) // list tuple set object map
